@@ -512,6 +512,7 @@ func checkC05(c *Ctx) {
 	gatedDecrypt(c, "C05")
 	cutInsideFrame(c, "C05")
 	forgedFrameOnConnection(c, "C05")
+	forgedFrameVsModel(c, "C05")
 	c03PlainFraming(c) // where a plaintext request ends decides what an adversary can glue behind the pair-verify finish
 	scs := c05Scenarios(c)
 	const block = 2000
